@@ -1,6 +1,7 @@
 mod ctx;
 mod dispatch;
 mod gj;
+mod ops_affine;
 mod ops_c17;
 mod ops_centroid;
 mod ops_distance;
@@ -84,6 +85,7 @@ fn dispatch_case(cx: &mut Ctx, n: u64, case: &Value) {
         "valid" => ops_valid::valid_case(cx, n, case),
         "linemeasure" => ops_linemeasure::linemeasure_case(cx, n, case),
         "traversal" => ops_traversal::traversal_case(cx, n, case),
+        "affine_step" => ops_affine::affine_case(cx, n, case),
         "poly" => ops_poly::poly_case(cx, n, case),
         "relate" => ops_relate::relate_case(cx, n, case),
         "coordpos" => ops_relate::coordpos_case(cx, n, case),
